@@ -124,6 +124,6 @@ def eval_entry(
             value = '"' + value + '"'
 
     new_value = literal_eval(value)
-    assert isinstance(new_value, str | Number | Sequence)
+    assert isinstance(new_value, str | Number | Sequence | None)
 
     return new_value
